@@ -442,7 +442,8 @@ func c14One(cc grpc.ClientConnInterface, b *bed.Bed, gates *Gates, tag, outcome 
 			if outcome == "stream-server-reset" {
 				hops = append(hops, Op{Op: "ret", Err: herr})
 			}
-			cops = []Op{{Op: "send", N: 2 + k, Size: 17}, {Op: "closeSend"}, {Op: "recvAll"}}
+			// (late messages of size 0 have an empty encoding: they are still messages, not opens)
+			cops = []Op{{Op: "send", N: 2 + k, Size: []int{17, 0}[k%2]}, {Op: "closeSend"}, {Op: "recvAll"}}
 		}
 		if kind == "server" && len(hops) > 0 && hops[0].Op == "recv" {
 			// the handler bursts only once the caller's open (Send + CloseSend) has returned
@@ -458,11 +459,11 @@ func c14One(cc grpc.ClientConnInterface, b *bed.Bed, gates *Gates, tag, outcome 
 
 func init() {
 	core.Register(&core.Prop{
-		ID:    "C14",
-		Level: "exploration",
-		Rule:  "each case is one long history on ONE connection: rounds of 1..32 concurrent RPCs with outcomes drawn from {unary ok/error/cancel/deadline, stream ok/error/cancel/deadline/server-reset/early-return/cancel-with-responses-unread-and-never-touched-again/send of an unencodable message with a live context} x 3 stream kinds, plus (every 4th round) opens whose transport write fails and a stream whose send fails once in the transport write; after every round the driver waits for a provably final state and samples client registry size, server stream registry size and the number of goroutines with goat frames against the idle level. evaluations = RPCs executed; every 10th case is instead a history against a SCRIPTED server on one connection, alternating {caller cancelled / deadline fired while its send is blocked by transport back-pressure with m in 3..6 responses unread} and {first response undecodable, caller stops without cancelling, m-1 more follow}, each followed by a unary probe, sampled the same way. a case is non-trivial when all 13 outcome classes occurred in its history; distinct = distinct (parameters, seed index).",
-		Plan:  func(tier string, seed int64) int { return tierN(tier, 80, 640) },
-		Run:   c14Run,
+		ID:       "C14",
+		Level:    "exploration",
+		Rule:     "each case is one long history on ONE connection: rounds of 1..32 concurrent RPCs with outcomes drawn from {unary ok/error/cancel/deadline, stream ok/error/cancel/deadline/server-reset/early-return/cancel-with-responses-unread-and-never-touched-again/send of an unencodable message with a live context} x 3 stream kinds, plus (every 4th round) opens whose transport write fails and a stream whose send fails once in the transport write; after every round the driver waits for a provably final state and samples client registry size, server stream registry size and the number of goroutines with goat frames against the idle level. evaluations = RPCs executed; every 10th case is instead a history against a SCRIPTED server on one connection, alternating {caller cancelled / deadline fired while its send is blocked by transport back-pressure with m in 3..6 responses unread} and {first response undecodable, caller stops without cancelling, m-1 more follow}, each followed by a unary probe, sampled the same way. a case is non-trivial when all 13 outcome classes occurred in its history; distinct = distinct (parameters, seed index).",
+		Plan:     func(tier string, seed int64) int { return tierN(tier, 80, 640) },
+		Run:      c14Run,
 		MaxStats: []string{"idle_goat_goroutines"},
 		RequiredStats: func(string) []string {
 			return []string{"sample_points", "failed_opens", "sample_points_after_all_outcomes", "scripted_sample_points"}
